@@ -75,7 +75,7 @@ def gen_seq(rng, n, family):
         alpha = [float(rng.randint(-3, 3)) for _ in range(rng.randint(2, 5))]
         return [rng.choice(alpha) for _ in range(n)]
     if family == 'constant':
-        c = rng.choice([0.0, 1.5, -7.0, 1e300, -1e-300])
+        c = rng.choice([0.0, 1.5, -7.0, 1e300, -1e-300, 0.1, 0.7, -0.3, 1e300 / 3, 1.1e-300])
         return [c] * n
     if family == 'sorted':
         return sorted(rng.gauss(0, 1) for _ in range(n))
@@ -89,13 +89,22 @@ def gen_seq(rng, n, family):
         return [float(rng.randint(-50, 50)) for _ in range(n)]
     if family == 'gauss':
         return [rng.gauss(3, 2) for _ in range(n)]
+    if family == 'tinyscale':
+        sc = 10.0 ** -rng.choice([165, 180, 200, 250, 300])
+        return [abs(rng.gauss(5, 3)) * sc + sc for _ in range(n)]
+    if family == 'hugescale':
+        sc = 10.0 ** rng.choice([150, 200, 290])
+        return [rng.gauss(0, 1) * sc for _ in range(n)]
+    if family == 'repeating':
+        c = rng.choice([0.1, 0.7, -0.3, 1e300 / 3, 1.1e-300, 2.0 / 3])
+        return [c if rng.random() < 0.85 else c * rng.choice([0.5, 2.0]) for _ in range(n)]
     if family == 'mixedties':
         base = [rng.gauss(0, 1) for _ in range(max(2, n // 4))]
         return [rng.choice(base) for _ in range(n)]
     raise ValueError(family)
 
 
-FAMILIES = ['uniform', 'tied', 'constant', 'sorted', 'reversed', 'extreme', 'huge', 'ints', 'gauss', 'mixedties']
+FAMILIES = ['uniform', 'tied', 'constant', 'sorted', 'reversed', 'extreme', 'huge', 'ints', 'gauss', 'mixedties', 'tinyscale', 'hugescale', 'repeating']
 
 
 # ---------------------------------------------------------------------------
